@@ -853,6 +853,8 @@ package priority
 // release not yet sent, gSHeldP / gSHeldItem that item, gSCalled Handle was called for it.
 
 //@ ghost var gSSpawned int
+// handlers registered with the wait group by main (wg.Add before the go statement)
+//@ ghost var gSAdded int
 //@ ghost var gSInnerStop bool
 //@ ghost var gSCancelled bool
 //@ ghost var gSWaited bool
@@ -891,7 +893,10 @@ package priority
 //@   modifies gSCalled
 //@   ensures [C01 C02 C07] gSCalled
 
+//@ event call sync.(*WaitGroup).Add (wg, n) in (*Simple).main
+//@   effect gSAdded := gSAdded + n
 //@ event go priority.(*Simple).handler
+//@   requires [C07 C16] every-handler-is-registered-with-the-wait-group-before-it-starts: gSAdded == gSSpawned + 1
 //@   effect gSSpawned := gSSpawned + 1
 //@ event call priority.(*Discipline).Stop (d) in (*Simple).main
 //@   effect gSInnerStop := true
@@ -924,7 +929,7 @@ package priority
 
 //@ func NewSimple
 //@   requires [C05] saturation-is-stated-for-buffered-inputs: forall k :: dom(opts.Inputs, k) ==> cap(opts.Inputs[k]) != 0
-//@   requires [*] ghost-initial-state: !gSMainStarted && gSSpawned == 0 && !gSWaited && !gSCancelled && !gSInnerStop
+//@   requires [*] ghost-initial-state: !gSMainStarted && gSSpawned == 0 && gSAdded == 0 && !gSWaited && !gSCancelled && !gSInnerStop
 //@   modifies gSMainStarted, gMainStarted, gDivErr, gPerm, gInv, anyelems(uint), gClock
 //@   ensures [C16] the-goroutine-that-answers-stop-is-running: result1 == nil ==> gSMainStarted
 //@   ensures [C01] inner-capacity-is-the-number-of-handlers: result1 == nil ==> (result0.priority != nil && result0.priority.opts.HandlersQuantity == result0.opts.HandlersQuantity && result0.opts.HandlersQuantity == opts.HandlersQuantity)
@@ -955,11 +960,13 @@ package priority
 //@ func (*Simple).main
 //@   requires [*] smpl != nil && smpl.opts.Handle != nil && smpl.priority != nil && smpl.wg != nil && smpl.breaker != nil && smpl.graceful != nil
 //@   requires [C01] gSSpawned == 0
+//@   requires [C07 C16] gSAdded == 0 && gSSpawned == 0
 //@   requires [C02 C07 C16] !gSWaited && !gSCancelled && !gSInnerStop
-//@   modifies gStop, gGraceful, gClock, gSSpawned, gSInnerStop, gSCancelled, gSWaited, gBreakOn
+//@   modifies gStop, gGraceful, gClock, gSSpawned, gSAdded, gSInnerStop, gSCancelled, gSWaited, gBreakOn
 //@   ensures [C01] exactly-handlers-quantity-handlers: gSSpawned == smpl.opts.HandlersQuantity
 //@   loop 0
 //@     invariant [C01] gSSpawned == $i
+//@     invariant [C07 C16] gSAdded == $i && gSSpawned == $i
 
 // C16, rule SB for the two kinds of goroutines of the simplified discipline.
 //@ stoprule (*Simple).main
